@@ -87,6 +87,8 @@ pub struct Ghost {
     /// term of the node that first reported index i committed
     pub commit_term_of: Vec<u64>,
     pub leader_of: BTreeMap<u64, u64>,
+    /// terms whose recorded leader never had (term, vote = itself) on its durable disk
+    pub leader_volatile: std::collections::BTreeSet<u64>,
     pub max_commit_ever: u64,
     pub max_leader_commit: u64,
     /// ctx -> (issuer, max commit when issued)
@@ -450,6 +452,23 @@ impl World {
                 );
             }
         }
+        {
+            let r = &live.rn.raft;
+            if r.term != disk.hs.term || (r.vote != disk.hs.vote && r.term == disk.hs.term) {
+                ctx.v(
+                    "C06",
+                    "restart: durable term/vote not restored",
+                    format!(
+                        "node {} restarts from durable (term {}, vote {}) but runs with (term {}, vote {})",
+                        i + 1,
+                        disk.hs.term,
+                        disk.hs.vote,
+                        r.term,
+                        r.vote
+                    ),
+                );
+            }
+        }
         self.nodes[i].live = Some(live);
         self.nodes[i].created = true;
         let post = snap_of(&self.nodes[i].live.as_ref().unwrap().rn);
@@ -605,7 +624,7 @@ impl World {
             let id = i as u8 + 1;
             let node = &self.nodes[i];
             let Some(l) = node.live.as_ref() else {
-                if node.created || !self.cfg(i).boot {
+                if (node.created || !self.cfg(i).boot) && !s.down_forever.contains(&id) {
                     if forced.is_none() || !eager {
                         out.push(Action::Restart(id));
                     }
@@ -1720,6 +1739,7 @@ impl World {
         for (t, l) in &g.leader_of {
             w.u64(*t);
             w.u64(*l);
+            w.b(g.leader_volatile.contains(t));
         }
         w.u8(0xfe);
         w.u64(g.max_commit_ever);
